@@ -13,6 +13,8 @@ def base_oracle(scn, res):
     v = res["verdict"]
     if v in ("deadlock", "livelock"):
         out.append(({"kind": v, "scenario": scn["name"]}, {"tree": res["flags"].get(v), "roots": res["roots"]}))
+    elif v == "db-busy-stall":
+        out.append(({"kind": "stalled-on-database-lock", "scenario": scn["name"]}, {"tree": res["flags"].get(v), "roots": res["roots"]}))
     elif v == "step-cap":
         out.append(({"kind": "no-termination-within-step-cap", "scenario": scn["name"]}, {"roots": res["roots"]}))
     for lid, msg in res["flags"].get("panics", []):
